@@ -223,7 +223,10 @@ class InRamPolicySupporter(policy_supporter.PolicySupporter):
     converter = converters.TrialToArrayConverter.from_study_config(
         config_without_safe,
         flip_sign_for_minimization_metrics=True,
-        dtype=np.float32,
+        # Metric values are doubles: in float32 distinct values compare equal
+        # (16777216 and 16777217) or overflow (1e39), and a dominated trial
+        # would be reported as optimal.
+        dtype=np.float64,
     )
     labels = converter.to_labels(warped_trials)
 
